@@ -710,6 +710,8 @@ def evaluate_payload_template(input, context, template):
                 else:
                     k, v = evaluate(k, v, True)
                     target[k] = v
+        else:  # A scalar, e.g. "x.$": "$" where the input is a number or string
+            target = template
         return target
 
     if template == None or template == "":
